@@ -517,6 +517,13 @@ class SpecMixin:
             raise VCError("lemma() accepts only %s" % sorted(self.LEMMA_FUNCS))
         self._last_lemma = None
         whole = truth(self.eval(inner, st))
+        # lemma(L, guard): the instance is only wanted where `guard` holds (ghost code is straight-line): the premise is obliged
+        # under the guard and the conclusion is known under the guard
+        guard = truth(self.eval(node.args[1], st)) if len(node.args) > 1 else None
+        if guard is not None:
+            if not (self._last_lemma and self._last_lemma[1] is not None):
+                raise VCError("guarded lemma() needs a lemma with an explicit premise")
+            self._last_lemma = (z3.Implies(guard, self._last_lemma[0]), z3.Implies(guard, self._last_lemma[1])) + tuple(self._last_lemma[2:])
         if self._last_lemma and self._last_lemma[1] is not None:
             premise, concl = self._last_lemma[:2]
             why = self._last_lemma[2] if len(self._last_lemma) > 2 else "entries non-negative"
